@@ -22,10 +22,10 @@ impl<T: Write> WritePrinter<T> {
     }
 
     fn print_as_is(&mut self, s: &str) -> std::io::Result<usize> {
-        let bytes_written = self.writer.write(s.as_bytes())?;
+        self.writer.write_all(s.as_bytes())?;
         self.writer.flush()?;
         self.last_column += s.len();
-        Ok(bytes_written)
+        Ok(s.len())
     }
 }
 
@@ -50,7 +50,8 @@ impl<T: Write> Printer for WritePrinter<T> {
 
     fn println(&mut self) -> std::io::Result<usize> {
         self.last_column = 0;
-        self.writer.write("\r\n".as_bytes())
+        self.writer.write_all("\r\n".as_bytes())?;
+        Ok(2)
     }
 
     fn move_to_next_print_zone(&mut self) -> std::io::Result<usize> {
